@@ -9,7 +9,7 @@ from __future__ import annotations
 import ast
 import re
 
-from ..absdom import (PregexHooks, check_type_enum, infer_empty_rule, make_operand, parse_regex,
+from ..absdom import (PregexHooks, check_type_enum, infer_empty_rule, make_operand, parse_regex, pattern_of,
                       same_regex, witnesses)
 from ..interp import FuncRef, ClassRef, Interp, Obj, PyRaise, explore, Incomplete
 from ..model import AnalysisError, Model, mangle, norm_text
@@ -148,7 +148,7 @@ def run_entry(model: Model, e: Entry, recv, argvals: dict):
             if not isinstance(v, Obj):
                 outs.append(("value", repr(v), None))
             else:
-                outs.append(("text", v.fields.get("_Pregex__pattern"), v is r.interp.recv))
+                outs.append(("text", pattern_of(v), v is r.interp.recv))
     return outs
 
 
